@@ -71,4 +71,32 @@ PROPS = {
         "DESIGN.md section 4 C10", level="fault_enumeration",
         level_note="Trusted: SimStore reports every injected fault as an error (no silent loss); the flow scripts cover 26 target requests x 2 routers. Multi-fault sequences are not enumerated."),
         exhaustive_if_probes=[f"flow:{f}/{r}" for f in ['authorize', 'authorize-with-hint', 'callback-code', 'callback-code-formpost', 'callback-idtoken-token', 'callback-idtoken', 'callback-idtoken-token-formpost', 'code-exchange', 'code-exchange-offline', 'code-exchange-public', 'code-exchange-jwtclient', 'refresh', 'client-credentials', 'jwt-bearer', 'token-exchange-access', 'token-exchange-refresh', 'token-exchange-id', 'token-exchange-actor', 'device-authorization', 'device-token', 'userinfo', 'introspect', 'revoke-access', 'revoke-refresh', 'end-session', 'keys'] for r in ("A", "B")]),
+    "C05": flow(
+        "W-flows",
+        "deterministic simulation: seeded histories of token, introspection, revocation and device-authorization requests by honest and hostile clients with every credential presentation; success checked against a reference authentication/grant matrix",
+        "one evaluation = one seeded world (router, provider flags, storage capabilities, 5 client registrations with random grant sets) running 40-80 actor steps; each step picks endpoint x grant x client x credential presentation "
+        "(right, wrong secret, secret by the other method, id only, none, assertion signed by foreign/other client's key, expired, wrong aud, sub!=iss, future iat). non-trivial = at least one success was checked; distinct = distinct step history",
+        {"runs": 40, "wall": 90}, {"runs": 8000, "wall": 1200},
+        {"quick": {"_runs": 400, "refresh-success": 300, "introspect-active": 200, "other-grant-success": 150, "device-code-issued": 200},
+         "thorough": {"_runs": 20000}},
+        "Seeded exploration; one-directional oracle: every token issued, active:true, effective revocation or device code implies the reference matrix admits the presented credentials and the grant is registered and enabled; refusals must be OAuth error documents.",
+        "DESIGN.md section 4 C05 and Appendix C"),
+    "C07": flow(
+        "W-flows",
+        "deterministic simulation: seeded histories of code flows followed by refresh chains by owner and foreign clients with subset/superset/disjoint scopes, replayed and unknown tokens; history oracle against the storage journal",
+        "one evaluation = one seeded world running 40-80 actor steps biased to refresh requests (chains up to 8 long, clock jumps, revocation and logout in between). non-trivial = at least one refresh succeeded; distinct = distinct step history",
+        {"runs": 40, "wall": 90}, {"runs": 8000, "wall": 1200},
+        {"quick": {"_runs": 400, "refresh-success": 1000, "widening-refused": 1000, "refresh-chain-2+": 300}, "thorough": {"_runs": 20000}},
+        "Seeded exploration; every successful refresh is checked for client binding, registered grant, scope subset, rotation through the storage (journal), response token = storage's new token, preserved subject/audience/auth_time and non-growing scope along the chain.",
+        "DESIGN.md section 4 C07"),
+    "C08": flow(
+        "W-flows",
+        "deterministic simulation: seeded histories of issuance, userinfo, introspection, revocation, logout and clock jumps past expiry with genuine, tampered, re-encrypted and garbage tokens; reference liveness model",
+        "one evaluation = one seeded world running 40-80 actor steps (obtain, userinfo, introspect, revoke with/without hint by owner/foreign/public client, end_session, clock advance to and past expiry). "
+        "non-trivial = a token was honoured and a revocation or logout took effect; distinct = distinct step history",
+        {"runs": 40, "wall": 90}, {"runs": 8000, "wall": 1200},
+        {"quick": {"_runs": 400, "userinfo-200": 500, "introspect-active": 150, "introspect-inactive": 500, "revocation-effective": 300, "garbage-revocation": 100, "foreign-revocation-attempt": 50, "logout": 300},
+         "thorough": {"_runs": 20000}},
+        "Seeded exploration; userinfo 200 / active:true imply the token is live in the reference model (and the caller authenticated and in the audience); inactive answers are exactly {active:false}; owner revocation and logout kill the tokens; foreign revocation is refused; garbage revocation answers 200.",
+        "DESIGN.md section 4 C08"),
 }
